@@ -187,7 +187,7 @@ def pmap(func, items, into, nshards=None, nproc=None, item_cpu_s=None):
                 os.close(fd)
                 del running[fd]
                 into.violation('%s/impl-hang' % pidname, 'the implementation did not finish this case within %.0f s of CPU time '
-                               '(cases of this check need seconds)' % budget, {'hang_item': jsonable(st['shard'][k])})
+                               '(cases of this check need seconds)' % budget, {'hang_item': jsonable(st['shard'][k]), 'func': func.__module__ + ':' + func.__name__})
                 into.count('evaluations', 1)
                 rest = st['shard'][:k] + st['shard'][k + 1:]
                 if rest:
@@ -215,13 +215,25 @@ def pmap(func, items, into, nshards=None, nproc=None, item_cpu_s=None):
                     if sig in (signal.SIGSEGV, signal.SIGBUS, signal.SIGABRT, signal.SIGFPE, signal.SIGILL):
                         into.violation('%s/impl-crash/signal%d' % (pidname, sig),
                                        'the implementation crashed the process (signal %d) on this case' % sig,
-                                       {'crash_item': jsonable(sh[0])})
+                                       {'crash_item': jsonable(sh[0]), 'func': func.__module__ + ':' + func.__name__})
                         into.count('evaluations', 1)
                     else:
                         into.harness_error('worker died (status %r) on item %s' % (status, str(sh[0])[:300]))
                 continue
             into.merge(pickle.loads(data))
     return into
+
+
+def replay_item(ctx, case, budget=120.0):
+    """re-execute a crash / hang case: the recorded worker function on the recorded item, in a child"""
+    import importlib
+    modname, fname = case['func'].split(':')
+    func = getattr(importlib.import_module(modname), fname)
+    item = case.get('crash_item', case.get('hang_item'))
+
+    def totuple(o):
+        return tuple(totuple(x) for x in o) if isinstance(o, list) else o
+    pmap(func, [totuple(item)], ctx, nshards=1, nproc=1, item_cpu_s=budget)
 
 
 def shard_list(items, n):
